@@ -659,6 +659,13 @@ def _queue_put(self, item, block=True, timeout=None) -> None:
         s = _sched_for_me()
         if s is not None:
             s.point("q_put")
+            if self.maxsize > 0 and len(self._sim_items) >= self.maxsize:
+                # bounded queue: a full queue blocks the producer (or raises Full) exactly like queue.Queue
+                if not block:
+                    raise _queue_mod.Full
+                ok = s.block(lambda: len(self._sim_items) < self.maxsize, timeout, "q_put_wait")
+                if not ok:
+                    raise _queue_mod.Full
             self._sim_items.append(item)
             # targeted policy: right after a producer published something, prefer the other parties for a few points
             s.mark("q_put")
